@@ -202,7 +202,7 @@ def expand_inv_macro(text, parts):
     return "\n".join(out)
 
 
-def fill_body(label, body, invs, tokens, nloops, parts):
+def fill_body(label, body, invs, tokens, nloops, parts, nogate=()):
     # loop invariants: `{ __inv!(k);`  ->  `invariant ... {`
     def repl(m):
         k = int(m.group(1))
@@ -222,7 +222,7 @@ def fill_body(label, body, invs, tokens, nloops, parts):
             site = f"/*@site {label}#{k}*/"
             k += 1
             m = re.match(r"^(\s*)(\S.*?)\.call\(h, g, c, (.*)\);\s*$", line)
-            if m and not m.group(2).startswith("let "):
+            if m and not m.group(2).startswith("let ") and m.group(2).strip() not in nogate:
                 ind, recv, args = m.groups()
                 lines.append(f"{ind}{{")
                 lines.append(f"{ind}    let __r = {recv}; let __m = {args};")
@@ -257,10 +257,12 @@ def weave(op_file, cfg):
     parts = [(a, f"{b} {c}".strip()) for a, b, c in re.findall(r"^//@invpart\s+(\w+)\s+(@C\d+)\s*(.*)$", text, re.M)]
     tokens = dict((a, b.strip()) for a, b in re.findall(r"^//@token\s+(\w+)\s*=>\s*(.+)$", text, re.M))
     ignores = dict((a, b) for a, b in re.findall(r"^//@ignore\s+(\w+)\s*=\s*(.*)$", text, re.M))
+    nogate = set(sum((x.split() for x in re.findall(r"^//@nogate[ \t]+(.+)$", text, re.M)), []))
     text, invs = take_invariants(text)
     text = add_unchecked_twins(text)
     text = expand_gates_macro(text)
     text = expand_inv_macro(text, parts)
+    invs = {k: expand_inv_macro(expand_gates_macro(v), parts) for k, v in invs.items()}
     # cells
     def cell(mm):
         return gen_cell(mm.group(1), mm.group(2).strip(), mm.group(3), heap, celltp)
@@ -283,7 +285,7 @@ def weave(op_file, cfg):
         if lab not in handlers:
             raise WeaveError(f"no closure labelled `{lab}` in the extraction of {op}")
         h = handlers[lab]
-        body, nsites = fill_body(lab, h["body"], invs, tokens, h["loops"], parts)
+        body, nsites = fill_body(lab, h["body"], invs, tokens, h["loops"], parts, nogate)
         used.add(lab)
         meta["handlers"][lab] = {"sites": nsites, "trace_events": h["trace_events"], "loops": h["loops"], "lines": body.count("\n") + 1}
         meta["sites"] += nsites
